@@ -171,9 +171,10 @@ MC_FOR = {
     "C11": (["margin"], ["margin_zero", "margin_fee"]),
 }
 REACH_FOR = {
-    "orders": ["Reach_PartialFill", "Reach_Completed", "Reach_FillOrKill", "Reach_Rejected"],
+    "orders": ["Reach_Completed", "Reach_Rejected"],
     "fees": ["Reach_PartialFill", "Reach_FeeCharged", "Reach_FillOrKill"],
-    "margin": ["Reach_LoanRepaid", "Reach_AutoRepaid", "Reach_Rollback", "Reach_MarginRefused"],
+    "margin": ["Reach_LoanRepaid", "Reach_AutoRepaid", "Reach_MarginRefused"],
+    "margin_fee": ["Reach_Rollback"],
     "stoplimit": ["Reach_StopHit"],
 }
 
